@@ -256,3 +256,55 @@ Definition lmp_draw_energy : Q := lmp_mass * (lmp_vel * lmp_vel) / (scale_lammps
 
 (* sum of the squares of all drawn standard-normal values *)
 Definition sum_sq (z : list col) : Q := sumQ (map (fun zc => sumQ (map (fun x => x * x) zc)) z).
+
+(* ------------------------------------------------------------------ optional entries of a configuration file *)
+(* What a configuration FILE holds.  Two entries of the formats are optional:
+     velocities -- the VELOCITY block of a .g96 file (read_gromos96_file), the vx vy vz columns
+                   of an xyz snapshot (convert_snapshot), the momenta of ASE Atoms;
+     box        -- the "Box:" entry in the comment line of an xyz snapshot.
+   The readers return zero velocities of the shape of the positions for the former; for the
+   latter TurtleMD carries `None` along (no box is written either) and CP2K substitutes the ABC
+   of its input template ([dflt_box]; the empty list stands for `None`). *)
+Record cfile := mkCfile {
+  c_pos : list col; c_vel : option (list col); c_box : option (list Q); c_ids : list Z }.
+
+Definition zero_cols (p : list col) : list col := map (map (fun _ => 0)) p.
+
+Definition col_len (v : list col) : nat := match v with c :: _ => length c | [] => O end.
+Definition c_npart (c : cfile) : nat := col_len (c_pos c).
+
+Definition read_cfile (dflt_box : list Q) (c : cfile) : frame :=
+  mkFrame (c_pos c)
+          (match c_vel c with Some v => v | None => zero_cols (c_pos c) end)
+          (match c_box c with Some b => b | None => dflt_box end)
+          (c_ids c).
+
+(* Number of velocity lines in genvel.<ext>.  write_xyz_trajectory / write_lammpstrj write one
+   line per atom, velocities included.  write_gromos96_file writes one velocity line per entry
+   of txt["VELOCITY"] (the labels read from the source's VELOCITY block: none for a frame
+   without one); GromacsEngine.modify_velocities (infretis_genvel) therefore has the special case
+       if not txt["VELOCITY"]: txt["VELOCITY"] = txt["POSITION"]
+   [special = true] is that statement as it is in the source; [false] stands for a test that
+   never fires (e.g. `"VELOCITY" not in txt`: the key is always present). *)
+Definition vel_lines (e : engine) (special : bool) (c : cfile) : nat :=
+  match e, c_vel c with
+  | Gromacs, Some v => col_len v
+  | Gromacs, None => if special then c_npart c else O
+  | _, _ => c_npart c
+  end.
+
+(* modify_velocities of CP2K / TurtleMD / LAMMPS / GROMACS (infretis_genvel) on the file level:
+   what is read from the source file, what the operation returns and what genvel.<ext> holds *)
+Definition modify_file (e : engine) (special : bool) (dflt_box : list Q) (mass : list Q) (c : cfile)
+           (ekin_stored : option Q) (zm : option bool) (sig : list Q) (z : list col) : result :=
+  let r := modify_std e mass (read_cfile dflt_box c) ekin_stored zm sig z in
+  let fr := r_frame r in
+  mkRes (mkFrame (f_pos fr) (map (firstn (vel_lines e special c)) (f_vel fr)) (f_box fr) (f_ids fr))
+        (r_kin_new r) (r_dek r) (r_kin_old r).
+
+Definition modify_file_stream (e : engine) (special : bool) (dflt_box : list Q) (mass : list Q)
+           (c : cfile) (ekin_stored : option Q) (zm : option bool) (sig : list Q) (s : list Q)
+  : result * list Q :=
+  (modify_file e special dflt_box mass c ekin_stored zm sig
+               (cols_of_stream (c_npart c) (length (c_pos c)) s),
+   stream_rest (c_npart c) (length (c_pos c)) s).
